@@ -15,7 +15,7 @@ pub const FOREIGN_FILE: &[u8] = b"NnRYKMSWBDHVXryx-*.";
 fn foreign_any() -> BoxedStrategy<u8> {
     prop_oneof![
         4 => Just(b'N'),
-        4 => select(b"NnRYKM-* \t0189".to_vec()),
+        4 => select(b"NnRYKM-* \t0189\r\n".to_vec()),
         2 => 0x04u8..=0x1f,
         2 => 0x80u8..=0xff,
         2 => (0x04u8..=0xffu8).prop_map(|b| if model::is_base(b) { b'N' } else { b }),
@@ -456,7 +456,7 @@ pub fn id_strategy() -> BoxedStrategy<String> {
 }
 
 fn desc_strategy() -> BoxedStrategy<Option<String>> {
-    prop_oneof![3 => Just(None), 1 => "[A-Za-z0-9_=;,.:/ -]{1,20}".prop_map(|s| Some(s.trim().to_string())).prop_map(|o| match o { Some(s) if s.is_empty() => None, o => o })].boxed()
+    prop_oneof![3 => Just(None), 1 => "[A-Za-z0-9_=;,.:/ >@+-]{1,20}".prop_map(|s| Some(s.trim().to_string())).prop_map(|o| match o { Some(s) if s.is_empty() => None, o => o })].boxed()
 }
 
 /// make ids unique by suffixing the ordinal
@@ -539,9 +539,27 @@ pub fn records(p: RecParams) -> BoxedStrategy<Vec<Rec>> {
             n,
         )
     });
-    let degen = n.prop_flat_map(move |n| vec((id_strategy(), desc_strategy(), degenerate_seq(p)), n));
+    let degen = n.clone().prop_flat_map(move |n| vec((id_strategy(), desc_strategy(), degenerate_seq(p)), n));
+    // reads of one length (as a sequencer delivers them), some of them with a few ambiguous bases: equal byte
+    // length, different numbers of valid windows
+    let reads = (n, (p.scale.max(4))..=(p.max_len.max(p.scale.max(4) + 1)).min(200))
+        .prop_flat_map(move |(n, len)| {
+            vec((id_strategy(), desc_strategy(), vec(select(CLEAN.to_vec()), len), prop_oneof![2 => Just(Vec::new()), 1 => vec(any::<u16>(), 1..=3)]), n).prop_map(move |v| {
+                v.into_iter()
+                    .map(|(id, d, mut s, ns)| {
+                        if !p.nuc_only {
+                            for x in ns {
+                                let i = crate::util::idx16(x, s.len());
+                                s[i] = b'N';
+                            }
+                        }
+                        (id, d, s)
+                    })
+                    .collect::<Vec<_>>()
+            })
+        });
     let dw = p.degenerate_w;
-    let mut arms = vec![((8 - dw.min(7)), normal.boxed())];
+    let mut arms = vec![((8 - dw.min(7)), normal.boxed()), (2, reads.boxed())];
     if dw > 0 {
         arms.push((dw / 2 + 1, mixed.boxed()));
         arms.push((dw, degen.boxed()));
@@ -721,8 +739,14 @@ pub fn align_strategy(max_target: usize) -> BoxedStrategy<Align> {
 /// Moves the start of one record of a single-line LF FASTA serialisation to `target - delta` by appending
 /// bases to the record before it. Returns the index of the aligned record.
 pub fn align_records(recs: &mut [Rec], a: &Align) -> Option<usize> {
+    align_records_nl(recs, a, false)
+}
+
+/// the same for CRLF line ends when `crlf` is set (a delta of -1 then puts the boundary between CR and LF)
+pub fn align_records_nl(recs: &mut [Rec], a: &Align, crlf: bool) -> Option<usize> {
     let want = (a.target as i64 - a.delta as i64).max(0) as usize;
-    let size = |r: &Rec| 1 + crate::io::header_line(r).len() + 1 + if r.seq.0.is_empty() { 0 } else { r.seq.0.len() + 1 };
+    let nl = if crlf { 2 } else { 1 };
+    let size = |r: &Rec| 1 + crate::io::header_line(r).len() + nl + if r.seq.0.is_empty() { 0 } else { r.seq.0.len() + nl };
     let mut off = vec![0usize; recs.len() + 1];
     for (i, r) in recs.iter().enumerate() {
         off[i + 1] = off[i] + size(r);
@@ -737,10 +761,10 @@ pub fn align_records(recs: &mut [Rec], a: &Align) -> Option<usize> {
     let prev = &mut recs[i - 1];
     if pad > 0 && prev.seq.0.is_empty() {
         // the first base also brings the line terminator
-        if pad == 1 {
+        if pad <= nl {
             return None;
         }
-        pad -= 1;
+        pad -= nl;
     }
     let unit: Vec<u8> = if prev.seq.0.is_empty() { b"ACGTTGCA".to_vec() } else { prev.seq.0.clone() };
     let clean: Vec<u8> = unit.iter().copied().filter(|&b| model::is_base(b)).collect();
